@@ -8,7 +8,7 @@ from ..core import Undecided, attr_chain, norm, short, walk_no_nested, call_meth
 from ..cfg import CFG
 from ..paths import enumerate_paths
 from ..report import RuleCtx
-from .c02_model import NodeModel, MPARSER, params_of
+from .c02_model import NodeModel, MPARSER, params_of, normal_methods
 
 BUF = 'self.current_ws'
 
@@ -201,7 +201,7 @@ def check_keepers(ctx: RuleCtx, model: NodeModel) -> None:
 def check_buffer(ctx: RuleCtx, model: NodeModel, primitive: str, wrapper: str) -> None:
     mod = model.mod
     from .c02_model import split_parallel
-    methods = {n_: split_parallel(f_) for n_, f_ in mod.methods('Parser').items()}   # `p, self.buf = self.buf, []` read as two assignments
+    methods = {n_: split_parallel(f_) for n_, f_ in normal_methods(mod, 'Parser').items()}   # `p, self.buf = self.buf, []` read as two assignments
     resets = slices = 0
     own_flush: T.Dict[str, T.List[ast.AST]] = {}     # method -> reset statements that flush into its returned local
     flush_helpers: T.Set[str] = set()               # methods that flush into a parameter
